@@ -19,7 +19,7 @@ const LEXEMES: &[&str] = &[
     // sizes the short alphabets never reach: long names, long strings, larger numerals
     "ZEBRA9", "QUUX$", "WXYZ12345",
     // long names that differ only in their first characters (hashing / truncating a name must not merge them)
-    "XPOSITION", "YPOSITION", "POSITION", "ABCDEFGHIJKLMNOP1", "ZBCDEFGHIJKLMNOP1", "LONGLONGLONGNAMEA$", "XONGLONGLONGNAMEA$", "\"ABCDEFGHIJKLMNOPQRSTUVWXYZ0123456789\"", "12345", "65535", "1000000", ".001", "123.456", "0000123",
+    "\u{a0}", "\u{3000}", "\u{b}", "\u{2028}", "\u{a0}\"q\"", "XPOSITION", "YPOSITION", "POSITION", "ABCDEFGHIJKLMNOP1", "ZBCDEFGHIJKLMNOP1", "LONGLONGLONGNAMEA$", "XONGLONGLONGNAMEA$", "\"ABCDEFGHIJKLMNOPQRSTUVWXYZ0123456789\"", "12345", "65535", "1000000", ".001", "123.456", "0000123",
     "\"-1\"", "\"1E3\"", "\"NAN\"", "\"inf\"", "\"+5\"", "-1", "1E3", "nan", "SC", "E", "x", "Y1", "A$", "TOTAL", "0", "1", "5", "25", ".", ".5", "\"", "\"hi\"", "<", ">", "=", "<=", "<>",
     ":", ",", ";", "$", " ", "  ", "\t", "+", "-", "*", "/", "^", "(", ")", "?", "é", "日", "%", "😊",
 ];
@@ -104,7 +104,12 @@ fn lex_event_inner(line: &str, rng: &mut StdRng) -> J {
         let p = if kind == "ins" { rng.gen_range(0..=bytes_v.len()) } else { rng.gen_range(0..bytes_v.len()) };
         let mut v = bytes_v.clone();
         match kind {
-            "ins" => v.insert(p, if rng.gen_bool(0.5) { 32 } else { 9 }),
+            // one blank, or (one time in three) a run of blanks: 2, 8, 29, 33, 40, 64 or 300 of them
+            "ins" => {
+                let run = if rng.gen_bool(0.33) { [2usize, 8, 29, 33, 40, 64, 300][rng.gen_range(0..7)] } else { 1 };
+                let b = if rng.gen_bool(0.5) { 32 } else { 9 };
+                for _ in 0..run { v.insert(p, b); }
+            }
             "del" => {
                 if v[p] != 32 && v[p] != 9 {
                     continue;
